@@ -19,12 +19,12 @@ import (
 type FaultKind int
 
 const (
-	NoFault FaultKind = iota
-	FaultEOF             // reader sees io.EOF
-	FaultUnexpectedEOF   // reader sees io.ErrUnexpectedEOF
-	FaultErr             // reader sees a custom error
-	FaultReset           // reader sees ECONNRESET-like error, writer too
-	FaultStall           // reader blocks until its end is closed
+	NoFault            FaultKind = iota
+	FaultEOF                     // reader sees io.EOF
+	FaultUnexpectedEOF           // reader sees io.ErrUnexpectedEOF
+	FaultErr                     // reader sees a custom error
+	FaultReset                   // reader sees ECONNRESET-like error, writer too
+	FaultStall                   // reader blocks until its end is closed
 )
 
 var ErrInjected = errors.New("xport: injected transport error")
@@ -32,8 +32,11 @@ var ErrReset = errors.New("xport: connection reset by peer")
 
 // Fault is a plan for one direction.
 type Fault struct {
-	Kind  FaultKind
-	After int64 // bytes delivered to the reader before the fault applies
+	// WithData: the Read that delivers the last byte before the fault returns the error in the same call
+	// (n > 0 together with a non-nil error, as io.Reader allows and real transports do)
+	WithData bool
+	Kind     FaultKind
+	After    int64 // bytes delivered to the reader before the fault applies
 }
 
 // Plan configures one direction (writer -> reader).
@@ -184,6 +187,26 @@ func (p *pipe) read(b []byte) (int, error) {
 			}
 			p.delivered += n
 			p.cond.Broadcast()
+			if f.Kind != NoFault && f.WithData && p.delivered == f.After {
+				var ferr error
+				switch f.Kind {
+				case FaultEOF:
+					ferr = io.EOF
+				case FaultUnexpectedEOF:
+					ferr = io.ErrUnexpectedEOF
+				case FaultErr:
+					ferr = ErrInjected
+				case FaultReset:
+					ferr = ErrReset
+				}
+				if ferr != nil {
+					p.faultHit = true
+					if p.onEvent != nil {
+						p.onEvent("fault", p.delivered)
+					}
+					return int(n), ferr
+				}
+			}
 			return int(n), nil
 		}
 		if p.wclosed {
@@ -259,15 +282,17 @@ type End struct {
 	CloseDelay time.Duration
 	// CloseErr is what Close returns after having closed (tls.Conn.Close reports a failed close_notify this way).
 	CloseErr error
-	// Linger makes a Write that fails because this end was closed take that long to return
+	// Linger makes a Read or Write that fails because this end was closed take that long to return
 	// (a blocked write to a real socket does not come back the instant another goroutine closes it).
-	Linger time.Duration
+	Linger  time.Duration
 	stall   atomic.Bool
 	stalled atomic.Int32
+	reads   atomic.Int32
 	done    chan struct{}
 }
 
-// StallWrites makes every Write block until this end is closed: a peer that stopped reading, with full buffers.
+// StallWrites(true) makes every Write block until this end is closed or StallWrites(false) is called:
+// a peer that stopped reading, with full buffers.
 func (e *End) StallWrites(on bool) { e.stall.Store(on) }
 
 // Stalled is the number of Write calls currently blocked by StallWrites.
@@ -280,16 +305,33 @@ func Pair(a2b, b2a Plan) (a, b *End) {
 	return &End{name: "a", r: pb, w: pa, done: make(chan struct{})}, &End{name: "b", r: pa, w: pb, done: make(chan struct{})}
 }
 
-func (e *End) Read(b []byte) (int, error)  { return e.r.read(b) }
+func (e *End) Read(b []byte) (int, error) {
+	e.reads.Add(1)
+	defer e.reads.Add(-1)
+	n, err := e.r.read(b)
+	if err != nil && e.Linger > 0 && e.closed.Load() {
+		time.Sleep(e.Linger)
+	}
+	return n, err
+}
+
+// ActiveReads is the number of Read calls executing on this end right now.
+func (e *End) ActiveReads() int { return int(e.reads.Load()) }
 func (e *End) Write(b []byte) (int, error) {
 	if e.stall.Load() {
 		e.stalled.Add(1)
-		<-e.done
-		e.stalled.Add(-1)
-		if e.Linger > 0 {
-			time.Sleep(e.Linger)
+		for e.stall.Load() {
+			select {
+			case <-e.done:
+				e.stalled.Add(-1)
+				if e.Linger > 0 {
+					time.Sleep(e.Linger)
+				}
+				return 0, io.ErrClosedPipe
+			case <-time.After(500 * time.Microsecond):
+			}
 		}
-		return 0, io.ErrClosedPipe
+		e.stalled.Add(-1)
 	}
 	n, err := e.w.write(b)
 	if err != nil && e.Linger > 0 && e.closed.Load() {
